@@ -46,7 +46,7 @@ ASSUMPTIONS = [
 LINE_REQUIRED = ['line_client_cases', 'line_server_cases', 'cut_inside_crlf', 'cr_at_read_end_not_crlf', 'cut_inside_utf8_char',
                  'bare_cr_inside_line', 'empty_line', 'lf_only_line', 'crlf_line', 'tail_held_across_reads',
                  'tail_terminated_by_later_read', 'server_interleaved_tails', 'byte_at_a_time', 'several_lines_in_one_read',
-                 'three_sockets', 'line_events_observed']
+                 'three_sockets', 'line_events_observed', 'line_components_on_channels_of_their_own']
 IRC_FUNCS = ['AWAY', 'INVITE', 'JOIN', 'KICK', 'MODE', 'NAMES', 'NICK', 'NOTICE', 'PART', 'PASS', 'PONG', 'PRIVMSG', 'QUIT', 'TOPIC',
              'USER', 'WHO', 'WHOIS']
 IRC_REQUIRED = ['ctor_' + n for n in IRC_FUNCS] + [
@@ -54,7 +54,8 @@ IRC_REQUIRED = ['ctor_' + n for n in IRC_FUNCS] + [
     'irc_line_event_observed', 'irc_roundtrip_evaluated', 'irc_arg_with_space', 'irc_arg_with_colon', 'irc_arg_with_cr',
     'irc_arg_with_lf', 'irc_arg_with_nul', 'irc_arg_empty', 'irc_arg_non_ascii', 'irc_arg_bytes', 'irc_arg_none',
     'irc_hostile_command', 'irc_hostile_prefix', 'irc_prefix_nick_user_host', 'irc_late_args_mutation',
-    'irc_all_command_functions_called', 'irc_benign_call_serialised', 'irc_same_line_received_twice', 'irc_numeric_line_received_twice', 'irc_prefix_given_as_object', 'irc_component_with_another_encoding']
+    'irc_all_command_functions_called', 'irc_benign_call_serialised', 'irc_same_line_received_twice', 'irc_numeric_line_received_twice', 'irc_prefix_given_as_object', 'irc_component_with_another_encoding',
+    'irc_component_with_a_neighbour_on_another_channel']
 REQUIRED = LINE_REQUIRED + IRC_REQUIRED
 REQUIRED_OBLIGATIONS = ['LINES', 'TAIL_HELD', 'ISOLATION', 'ONE_LINE', 'ROUNDTRIP']
 WORKER_TIMEOUT = {'quick': 300, 'thorough': 1500}
@@ -93,11 +94,14 @@ def harness():
         def __init__(self):
             super().__init__(channel='c18')
             self.lines = []
+            self.chlines = []  # (channels, args) of every ``line`` event dispatched anywhere in the tree
             self.all = []      # (name, args) of every event dispatched anywhere in the tree
 
         @handler(channel='*', priority=101)
         def _v_on_any(self, event, *args, **kwargs):
             self.all.append((event.name, args))
+            if event.name == 'line':
+                self.chlines.append((tuple(event.channels), args))
 
         @handler('line', priority=100)
         def _v_on_line(self, *args):
@@ -132,9 +136,15 @@ def _run_reads(case, only_sock=None):
     if server:
         buffers = {}
         comp = h['Line'](getBuffer=lambda s: buffers.get(s, b''), updateBuffer=buffers.__setitem__)
+    elif case['mode'] == 'channels':
+        # client mode, one Line per connection, told apart by their channels (several clients in one tree)
+        comp = None
+        for i in range(case.get('nsock', 1)):
+            h['Line'](channel='ch%d' % i).register(w)
     else:
         comp = h['Line']()
-    comp.register(w)
+    if comp is not None:
+        comp.register(w)
     w.settle()
     out = []
     for si, data in case['reads']:
@@ -143,6 +153,11 @@ def _run_reads(case, only_sock=None):
         before = len(w.lines)
         if server:
             w.inject(h['read'](h['socks'][si], data))
+        elif case['mode'] == 'channels':
+            before = len(w.chlines)
+            w.inject(h['read'](data), 'ch%d' % si)
+            out.append((si, data, w.chlines[before:]))
+            continue
         else:
             w.inject(h['read'](data))
         out.append((si, data, w.lines[before:]))
@@ -154,7 +169,12 @@ def _obs_lines(case, si, events):
     h = harness()
     lines, ident = [], True
     for a in events:
-        if case['mode'] == 'server':
+        if case['mode'] == 'channels':
+            chans, a = a
+            if chans != ('ch%d' % si,) or len(a) != 1:
+                ident = False
+            lines.append(a[-1])
+        elif case['mode'] == 'server':
             if len(a) != 2 or a[0] is not h['socks'][si]:
                 ident = False
             lines.append(a[-1])
@@ -177,8 +197,8 @@ def run_line_case(case):
     tails = [b''] * nsock
     last_read = [None] * nsock
     nontrivial = False
-    server = case['mode'] == 'server'
-    marks.add('line_server_cases' if server else 'line_client_cases')
+    server = case['mode'] in ('server', 'channels')      # (several connections whose tails must not mix)
+    marks.add({'server': 'line_server_cases', 'client': 'line_client_cases', 'channels': 'line_components_on_channels_of_their_own'}[case['mode']])
     if len({si for si, _ in case['reads']}) >= 3:
         marks.add('three_sockets')
     per_sock = {}
@@ -340,6 +360,7 @@ def line_corpus():
             for socks in ([a, bch], [a, bch, cch]):
                 order = [si for grp in itertools.zip_longest(*[[si] * len(c) for si, c in enumerate(socks)]) for si in grp if si is not None]
                 cases.append(line_case('server', socks, order, closing_order=list(reversed(range(len(socks))))))
+                cases.append(line_case('channels', socks, order, closing_order=list(reversed(range(len(socks))))))
             # single cut in each, the tails of both pending at the same time, terminated in the opposite order
             for c in range(1, len(s)):
                 cases.append(line_case('server', [chunks_of(s, [c]), chunks_of(SECOND, [min(c, len(SECOND) - 1)])], [0, 1, 1, 0],
@@ -349,6 +370,9 @@ def line_corpus():
     cases.append(line_case('server', [[b'a', b'\n'], [b'b', b'\n']], [0, 1, 1, 0]))
     cases.append(line_case('server', [[b'a\r', b'\n'], [b'b\r', b'x\n'], [b'', b'c\n']], [0, 1, 2, 1, 0, 2]))
     cases.append(line_case('server', [[b'a'], [b'\n']], [0, 1]))                 # LF on another socket must not terminate 'a'
+    cases.append(line_case('channels', [[b'a'], [b'\n']], [0, 1]))
+    cases.append(line_case('channels', [[b'be', b'fore\n'], [b'one\ntw', b'o\n']], [0, 1, 0, 1]))
+    cases.append(line_case('channels', [[b'solo\r', b'\nx']]))
     cases.append(line_case('server', [[b'a\r'], [b'\nb']], [0, 1], closing_order=[1, 0]))
     cases.append(line_case('client', [[b'', b'a', b'', b'\r', b'', b'\n', b'']]))
     cases.append(line_case('client', [[b'\xe2', b'\x82', b'\xac\r', b'\n\xf0\x9f', b'\x98\x80\n']]))
@@ -389,7 +413,8 @@ def gen_cuts(rng, s):
 
 
 def gen_line_case(rng):
-    mode = 'client' if rng.random() < 0.35 else 'server'
+    r = rng.random()
+    mode = 'client' if r < 0.3 else 'channels' if r < 0.5 else 'server'
     n = 1 if mode == 'client' else rng.choice([1, 2, 2, 3, 3])
     socks = [gen_cuts(rng, gen_stream(rng, si)) for si in range(n)]
     order = [si for si in range(n) for _ in socks[si]]
@@ -645,7 +670,17 @@ def run_irc_case(case):
     #       gives the same fields every time - whatever an earlier reception did with what it was handed
     try:
         rx = h['Rec']()
-        irc = (h['IRC']() if enc == 'utf-8' else h['IRC'](encoding=enc)).register(rx)
+        nb = bool(case.get('neighbour'))
+        if nb:
+            # a second network in the same tree, on a channel of its own, with half a line pending while this one receives
+            marks.add('irc_component_with_a_neighbour_on_another_channel')
+            irc = (h['IRC'](channel='net1') if enc == 'utf-8' else h['IRC'](channel='net1', encoding=enc)).register(rx)
+            h['IRC'](channel='net2').register(rx)
+            rx.settle()
+            rx.fire(h['read'](b':other NOTICE x :par'), 'net2')
+            rx.settle()
+        else:
+            irc = (h['IRC']() if enc == 'utf-8' else h['IRC'](encoding=enc)).register(rx)
         rx.settle()
         seen = []
         for _ in range(2):
@@ -653,6 +688,18 @@ def run_irc_case(case):
             rx.fire(h['read'](data), irc.channel)
             rx.settle()
             seen.append([(n, repr(a)) for n, a in rx.all[n0:] if n not in ('read', 'line', 'exception') and not n.endswith(('_done', '_success', '_complete', '_failure'))])
+        if nb:
+            n0 = len(rx.all)
+            rx.fire(h['read'](b'tial\r\n'), 'net2')
+            rx.settle()
+            theirs = [(n, repr(a)) for n, a in rx.all[n0:] if n not in ('read', 'line', 'exception') and not n.endswith(('_done', '_success', '_complete', '_failure'))]
+            pt2, _pc2, pa2 = h['parsemsg'](b':other NOTICE x :partial')
+            want2 = [('notice', repr((pt2,) + tuple(pa2)))]
+            oblig['ROUNDTRIP'] += 1
+            if theirs != want2:
+                problems.append(('ROUNDTRIP', {'problem': 'a neighbouring IRC component on another channel, which held half a line while this message was received, '
+                                               'does not deliver exactly its own message afterwards', 'neighbour_events': theirs[:4], 'expected': want2,
+                                               'line_received_meanwhile_on_the_other_channel': line}, 'neighbour'))
         again = h['parsemsg'](line) if enc == 'utf-8' else h['parsemsg'](line, encoding=enc)
         # what the receiving component hands to the application is the direct parse of the line (numeric replies carry their number first)
         want_ev = None
@@ -861,6 +908,9 @@ def irc_matrix():
                 cases.append({'kind': 'irc', 'ctor': 'Message', 'command': cmd, 'prefix': 'n\xe9!u@h', 'args': list(args), 'encoding': enc})
         cases.append({'kind': 'irc', 'ctor': 'PRIVMSG', 'args': ['#caf\xe9', 'd\xe9j\xe0 vu'], 'encoding': enc})
         cases.append({'kind': 'irc', 'ctor': 'TOPIC', 'args': ['#chan', 'caf\xe9'], 'encoding': enc})
+        # two networks in one tree, each IRC component on a channel of its own
+        for cmd, args in (('PRIVMSG', ['#chan', 'hello there']), ('NOTICE', ['you', 'greetings from one']), ('001', ['nick', 'Welcome'])):
+            cases.append({'kind': 'irc', 'ctor': 'Message', 'command': cmd, 'prefix': 'n!u@h', 'args': list(args), 'encoding': enc, 'neighbour': True})
     for cmd in COMMANDS:
         for prefix in PREFIXES:
             for last in BENIGN_LAST:
@@ -930,6 +980,8 @@ def gen_irc_case(rng):
             case['late'] = [gen_str(rng, True) for _ in range(rng.choice([1, 1, 2]))]
     if rng.random() < 0.15:
         case['encoding'] = rng.choice(['latin-1', 'cp1252'])
+    if rng.random() < 0.3:
+        case['neighbour'] = True
     return case
 
 
